@@ -232,7 +232,7 @@ func genMigrationTags(t *rapid.T, o GenOptions, f *FieldSpec, label string, inPt
 		}
 		_ = col
 		// a check over the marker column (always present, always > 0): valid whatever the leaf's own values are
-		f.Check = rapid.SampledFrom([]string{"marker > 0", "marker <> 0 AND marker IS NOT NULL", "(marker + 1) > 1"}).Draw(t, label+".chk")
+		f.Check = rapid.SampledFrom(CheckExprs).Draw(t, label+".chk")
 		if rapid.Bool().Draw(t, label+".chkname") {
 			f.CheckName = "chk_" + strings.ToLower(f.Name)
 		}
@@ -842,4 +842,13 @@ func styleTags(t *rapid.T, s *StructSpec) {
 		}
 	}
 	walk(s)
+}
+
+// CheckExprs: check expressions over the marker column (always present, always > 0), so
+// they hold whatever the field's own values are. Several contain commas (IN lists,
+// multi-argument functions, a comma inside a string literal): in `check:name,expr`
+// only the first comma separates the name.
+var CheckExprs = []string{
+	"marker > 0", "marker <> 0 AND marker IS NOT NULL", "(marker + 1) > 1",
+	"coalesce(marker, 1) > 0", "marker NOT IN (0,-1,-2)", "max(marker, 1, 2) >= 2", "marker > 0 OR 'a,b' = 'c'", "ifnull(marker,1) BETWEEN 1 AND 99999999",
 }
